@@ -1,8 +1,8 @@
 (* C16 — property theorems only.  Statements are full; proofs are [exact lemma]. *)
 From Coq Require Import List NArith Bool.
-From Coq Require Import Permutation.
+From Coq Require Import Permutation Lia.
 From LE Require Import SMT.Spec SMT.Tree SMT.TreeProofs.
-From LE Require Import Exec.EventLog Exec.TxExec Exec.TxExecProofs Exec.StateRoot Exec.StateRootProofs Exec.CacheProofs Exec.Recovery Exec.RootProofs.
+From LE Require Import Exec.EventLog Exec.TxExec Exec.TxExecProofs Exec.StateRoot Exec.StateRootProofs Exec.CacheProofs Exec.Recovery Exec.RootProofs Exec.Instance.
 Import ListNotations.
 Local Open Scope N_scope.
 
@@ -49,6 +49,18 @@ Theorem C16_events_indexed_consecutively : forall s st t st' r o,
   (forall i x, nth_error (lg_events (x_log st')) i = Some x -> ev_index (le_event x) = N.of_nat i).
 Proof. exact execute_tx_indexed. Qed.
 
+(* block level: the engine concatenates the events of BeforeTransactionsExecute, of every transaction (each numbered from
+   0 by its own logger) and of AfterTransactionsExecute and renumbers them (Events.UpdateIndex): same events, same order,
+   nothing but the index changed, and the i-th event of the block carries index i *)
+Theorem C16_block_events_renumbered : forall before txs after i e,
+  nth_error (before ++ concat txs ++ after) i = Some e ->
+  nth_error (block_events before txs after) i = Some (reindex e i).
+Proof. exact block_events_renumbered. Qed.
+
+Theorem C16_block_events_indexed_consecutively : forall before txs after i e,
+  nth_error (block_events before txs after) i = Some e -> ev_index e = N.of_nat i.
+Proof. exact block_events_indexed. Qed.
+
 (* Commit writes exactly the staged view: every key reads after the commit as it read through the staged store
    (a key deleted in the block is absent) *)
 Theorem C16_commit_writes_staged_view : forall c s ws d,
@@ -80,8 +92,8 @@ Proof. vm_compute. split; reflexivity. Qed.
 (* whatever the transactions of a block do (any scripts over module-store keys, any snapshots/restores, any mix of
    failing and succeeding commands, hooks, unknown commands), the cache handed to Commit has distinct keys and every
    entry remembers the persisted value of its key — the precondition of the commit theorems below *)
-Theorem C16_block_cache_good : forall s height txs c v c' v',
-  Forall tx_wf txs -> cache_good s c -> snaps_good s v -> exec_txs s height c v txs = (c', v') -> cache_good s c'.
+Theorem C16_block_cache_good : forall (KP : bytes -> Prop) s height txs c v c' v',
+  Forall (tx_wf KP) txs -> cache_good KP s c -> snaps_good KP s v -> exec_txs s height c v txs = (c', v') -> cache_good KP s c'.
 Proof. exact block_cache_good. Qed.
 
 (* ---- state root.  The sparse Merkle tree is abstract: tree states TR, Trie.Update = tree_update, root = tree_root.
@@ -95,31 +107,38 @@ Section C16Root.
   Variable tree_update : TR -> list (@op bytes) -> TR.
   Variable tree_root : TR -> R.
   Variable tree_empty : TR.
-  Variable n : nat.                               (* trie key length in bits *)
+  Variable U : bytes -> Prop.                     (* key universe of the run: the state keys module code touches *)
   Variable empty_root : R.
-  Hypothesis hash_inj : forall a b, hash a = hash b -> a = b.
-  Hypothesis enc_inj : forall a b, enc a = enc b -> a = b.
-  Hypothesis enc_len : forall k t, tree_key hash k = Some t -> length (enc t) = n.
+  (* the hash yields 32 proper bytes and has no collision AMONG THE KEYS OF THE RUN (a premise about the run: no
+     injective function into 32 bytes exists); the bit expansion has 8 bits per byte and is injective on proper byte
+     strings of equal length.  These hypotheses are satisfiable: C16_hypotheses_consistent below instantiates them. *)
+  Hypothesis hash_len : forall x, length (hash x) = 32%nat.
+  Hypothesis hash_wfb : forall x, wfb (hash x).
+  Hypothesis hash_inj_U : forall k k', U k -> U k' -> hash (skipn 7 k) = hash (skipn 7 k') -> skipn 7 k = skipn 7 k'.
+  Hypothesis enc_len : forall a, length (enc a) = (8 * length a)%nat.
+  Hypothesis enc_inj : forall a b, wfb a -> wfb b -> length a = length b -> enc a = enc b -> a = b.
   Hypothesis root_eqb_spec : forall a b, root_eqb a b = true <-> a = b.
   Hypothesis empty_root_spec : empty_root = tree_root tree_empty.
   Hypothesis H_C10 : forall h1 h2 : list (list (@op bytes)),
-    keys_ok n h1 -> keys_ok n h2 ->
+    keys_ok tkbits h1 -> keys_ok tkbits h2 ->
     (forall k, mget k (fold_left map_batch h1 []) = mget k (fold_left map_batch h2 [])) ->
     tree_root (fold_left tree_update h1 tree_empty) = tree_root (fold_left tree_update h2 tree_empty).
 
-  Notation Inv := (Inv hash enc TR R tree_update tree_empty n).
-  Notation Good := (Good hash enc TR R tree_update tree_root tree_empty n empty_root).
+  Notation n := tkbits.
+  Notation ukey := (ukey U).
+  Notation Inv := (Inv hash enc TR R tree_update tree_empty U).
+  Notation Good := (Good hash enc TR R tree_update tree_root tree_empty U empty_root).
   Notation img := (img hash enc).
   Notation commit := (commit hash enc root_eqb tree_update tree_root).
   Notation revert := (revert hash enc root_eqb tree_update tree_root).
   Notation init := (init hash enc root_eqb tree_update tree_root empty_root).
-  Notation reach := (reach hash enc TR R root_eqb tree_update tree_root tree_empty empty_root).
+  Notation reach := (reach hash enc TR R root_eqb tree_update tree_root tree_empty U empty_root).
 
   (* the state root committed for a block is the sparse Merkle root of the resulting state, deleted keys absent:
      the new state is the staged view; the returned root is the root of EVERY history of batches whose map is the tree
      image {tree_key k |-> hash v | k |-> v in the state} — a key absent from the state contributes nothing *)
   Theorem C16_commit_root_is_smt_of_state : forall a hist c height prev expected a' r,
-    Inv a hist -> cache_good (a_state a) c -> root_eqb prev (tree_root (a_tree a)) = true ->
+    Inv a hist -> cache_good ukey (a_state a) c -> root_eqb prev (tree_root (a_tree a)) = true ->
     commit a c height prev expected false = COk a' r ->
     exists ops, Inv a' (hist ++ [ops]) /\ r = tree_root (a_tree a') /\
       (forall k, lookup (a_state a') k = view (a_state a) c k) /\
@@ -127,16 +146,16 @@ Section C16Root.
       a_diffs a' = put_diff (a_diffs a) height (snd (commit_cache c)) /\
       (forall h2, keys_ok n h2 -> img (a_state a') (fold_left map_batch h2 []) ->
                   r = tree_root (fold_left tree_update h2 tree_empty)).
-  Proof. exact (commit_root_is_smt_of_state hash enc TR R root_eqb tree_update tree_root tree_empty n hash_inj enc_inj enc_len H_C10). Qed.
+  Proof. exact (commit_root_is_smt_of_state hash enc TR R root_eqb tree_update tree_root tree_empty U hash_len hash_wfb hash_inj_U enc_len enc_inj H_C10). Qed.
 
   Theorem C16_commit_never_panics : forall a hist c height prev expected dry,
-    Inv a hist -> cache_good (a_state a) c -> root_eqb prev (tree_root (a_tree a)) = true ->
+    Inv a hist -> cache_good ukey (a_state a) c -> root_eqb prev (tree_root (a_tree a)) = true ->
     match commit a c height prev expected dry with COk _ _ | CMismatch _ => True | _ => False end.
-  Proof. exact (commit_never_panics hash enc TR R root_eqb tree_update tree_root tree_empty n hash_inj enc_inj enc_len). Qed.
+  Proof. exact (commit_never_panics hash enc TR R root_eqb tree_update tree_root tree_empty U hash_len hash_wfb hash_inj_U enc_len enc_inj). Qed.
 
   (* reverting the block just committed restores every key's binding and the previous root (and the tree-state record) *)
   Theorem C16_revert_restores_state_and_root : forall a H sts c a' r expected,
-    Good a H sts -> cache_good (a_state a) c -> H + 1 < 2 ^ 32 ->
+    Good a H sts -> cache_good ukey (a_state a) c -> H + 1 < 2 ^ 32 ->
     commit a c (H + 1) (tree_root (a_tree a)) None false = COk a' r ->
     exists a'', (forall k, lookup (a_state a'') k = lookup (a_state a) k) /\
                 tree_root (a_tree a'') = tree_root (a_tree a) /\
@@ -144,7 +163,7 @@ Section C16Root.
                 revert a' (H + 1) r expected =
                 if match expected with Some x => negb (root_eqb (tree_root (a_tree a)) x) | None => false end
                 then RMismatch (tree_root (a_tree a)) else ROk a'' (tree_root (a_tree a)).
-  Proof. exact (revert_restores_state_and_root hash enc TR R root_eqb tree_update tree_root tree_empty n hash_inj enc_inj enc_len root_eqb_spec H_C10 empty_root). Qed.
+  Proof. exact (revert_restores_state_and_root hash enc TR R root_eqb tree_update tree_root tree_empty U hash_len hash_wfb hash_inj_U enc_len enc_inj root_eqb_spec H_C10 empty_root). Qed.
 
   (* restart recovery: with the engine at last <= H, Init rolls the application back to the state it had at [last]
      (Good ... last (the chain from that level on)), never fails on the way, and answers IOk exactly when the engine's
@@ -153,39 +172,87 @@ Section C16Root.
     (N.to_nat (H - last) < length sts)%nat ->
     exists a', Good a' last (skipn (N.to_nat (H - last)) sts) /\ a_diffs a' = a_diffs a /\
                init a last last_root = if root_eqb (tree_root (a_tree a')) last_root then IOk a' else IConflict a'.
-  Proof. exact (init_recovers_to_engine_tip hash enc TR R root_eqb tree_update tree_root tree_empty n hash_inj enc_inj enc_len root_eqb_spec H_C10 empty_root empty_root_spec). Qed.
+  Proof. exact (init_recovers_to_engine_tip hash enc TR R root_eqb tree_update tree_root tree_empty U hash_len hash_wfb hash_inj_U enc_len enc_inj root_eqb_spec H_C10 empty_root empty_root_spec). Qed.
 
   Theorem C16_init_succeeds_on_matching_root : forall a H sts last b hb, Good a H sts -> last <= H ->
     (N.to_nat (H - last) < length sts)%nat -> Inv b hb ->
     (forall k, lookup (a_state b) k = lookup (nth (N.to_nat (H - last)) sts []) k) ->
     exists a', init a last (tree_root (a_tree b)) = IOk a' /\ Good a' last (skipn (N.to_nat (H - last)) sts).
-  Proof. exact (init_succeeds_on_matching_root hash enc TR R root_eqb tree_update tree_root tree_empty n hash_inj enc_inj enc_len root_eqb_spec H_C10 empty_root empty_root_spec). Qed.
+  Proof. exact (init_succeeds_on_matching_root hash enc TR R root_eqb tree_update tree_root tree_empty U hash_len hash_wfb hash_inj_U enc_len enc_inj root_eqb_spec H_C10 empty_root empty_root_spec). Qed.
 
   Theorem C16_init_behind : forall a H sts last last_root, Good a H sts -> H < last -> init a last last_root = IBehind.
-  Proof. exact (init_behind hash enc TR R root_eqb tree_update tree_root tree_empty n empty_root empty_root_spec). Qed.
+  Proof. exact (init_behind hash enc TR R root_eqb tree_update tree_root tree_empty U empty_root empty_root_spec). Qed.
 
   (* for ALL sequences of blocks (any transactions), reverts and restarts from the empty database: the database is Good
      — consistent with a history of tree batches (so its root is the SMT root of its state), tree-state record at the
      application height, and every earlier state of the chain still reachable by Revert / Init *)
   Theorem C16_every_reachable_db_is_good : forall a H, reach a H ->
     exists sts, Good a H sts /\ length sts = S (N.to_nat H) /\ diff_at (a_diffs a) 0 = None.
-  Proof. exact (reach_good hash enc TR R root_eqb tree_update tree_root tree_empty n hash_inj enc_inj enc_len root_eqb_spec H_C10 empty_root empty_root_spec). Qed.
+  Proof. exact (reach_good hash enc TR R root_eqb tree_update tree_root tree_empty U hash_len hash_wfb hash_inj_U enc_len enc_inj root_eqb_spec H_C10 empty_root empty_root_spec). Qed.
 End C16Root.
 
 (* composition with C10: for the trie of coq/SMT/Tree.v (any abstract hash functions) the hypothesis H_C10 IS
-   TreeProofs.root_is_function_of_map (= C10_root_is_function_of_map), so no assumption about the tree remains *)
+   TreeProofs.root_is_function_of_map (= C10_root_is_function_of_map), so no assumption about the TREE remains; what
+   remains assumed is stated in the premises: hash of 32 proper bytes without collisions among the keys of the run,
+   the bit expansion's two properties, equality test on roots. *)
 Theorem C16_composed_with_C10 :
-  forall (hash : bytes -> bytes) (enc : bytes -> Spec.key) (Hsh : Type) (hempty : Hsh) (hleaf : Spec.key -> bytes -> Hsh)
-         (hbranch : Hsh -> Hsh -> Hsh) (heqb : Hsh -> Hsh -> bool) (n : nat),
-    (forall a b, hash a = hash b -> a = b) -> (forall a b, enc a = enc b -> a = b) ->
-    (forall k t, tree_key hash k = Some t -> length (enc t) = n) ->
+  forall (hash : bytes -> bytes) (enc : bytes -> Spec.key) (U : bytes -> Prop) (Hsh : Type) (hempty : Hsh)
+         (hleaf : Spec.key -> bytes -> Hsh) (hbranch : Hsh -> Hsh -> Hsh) (heqb : Hsh -> Hsh -> bool),
+    (forall x, length (hash x) = 32%nat) -> (forall x, wfb (hash x)) ->
+    (forall k k', U k -> U k' -> hash (skipn 7 k) = hash (skipn 7 k') -> skipn 7 k = skipn 7 k') ->
+    (forall a, length (enc a) = (8 * length a)%nat) ->
+    (forall a b, wfb a -> wfb b -> length a = length b -> enc a = enc b -> a = b) ->
     (forall a b, heqb a b = true <-> a = b) ->
     forall a H,
-      reach hash enc (@T bytes) Hsh heqb (batch_update n) (Tree.hash hempty hleaf hbranch) E hempty a H ->
-      exists sts, Good hash enc (@T bytes) Hsh (batch_update n) (Tree.hash hempty hleaf hbranch) E n hempty a H sts /\
+      reach hash enc (@T bytes) Hsh heqb (batch_update tkbits) (Tree.hash hempty hleaf hbranch) E U hempty a H ->
+      exists sts, Good hash enc (@T bytes) Hsh (batch_update tkbits) (Tree.hash hempty hleaf hbranch) E U hempty a H sts /\
                   length sts = S (N.to_nat H) /\ diff_at (a_diffs a) 0 = None.
 Proof.
-  intros hash enc Hsh hempty hleaf hbranch heqb n Hh He Hl Hq a H Hr.
-  exact (reach_good hash enc (@T bytes) Hsh heqb (batch_update n) (Tree.hash hempty hleaf hbranch) E n Hh He Hl Hq
-           (@root_is_function_of_map bytes Hsh hempty hleaf hbranch n) hempty eq_refl a H Hr).
+  intros hash enc U Hsh hempty hleaf hbranch heqb H1 H2 H3 H4 H5 Hq a H Hr.
+  exact (reach_good hash enc (@T bytes) Hsh heqb (batch_update tkbits) (Tree.hash hempty hleaf hbranch) E U H1 H2 H3 H4 H5 Hq
+           (@root_is_function_of_map bytes Hsh hempty hleaf hbranch tkbits) hempty eq_refl a H Hr).
+Qed.
+
+(* CONSISTENCY of the hypotheses, checked by Coq: a concrete instance — enc8 (the 8-bit big-endian expansion, both
+   properties proved in Exec/Instance.v), a toy hash (32 bytes always, identity on proper 32-byte strings), the key
+   universe of proper 39-byte state keys (on which the toy hash has no collisions), a free hash algebra for the trie
+   with its decidable equality — for which every premise above is PROVED, so the theorems are not vacuous. *)
+Inductive fh := FE | FL (k : Spec.key) (v : bytes) | FB (l r : fh).
+Definition fh_eq_dec : forall a b : fh, {a = b} + {a <> b}.
+Proof. decide equality; try apply (list_eq_dec N.eq_dec); apply (list_eq_dec Bool.bool_dec). Defined.
+Definition fh_eqb (a b : fh) : bool := if fh_eq_dec a b then true else false.
+
+Theorem C16_hypotheses_consistent : forall a H,
+  reach hash_toy enc8 (@T bytes) fh fh_eqb (batch_update tkbits) (Tree.hash FE FL FB) E U_toy FE a H ->
+  exists sts, Good hash_toy enc8 (@T bytes) fh (batch_update tkbits) (Tree.hash FE FL FB) E U_toy FE a H sts /\
+              length sts = S (N.to_nat H) /\ diff_at (a_diffs a) 0 = None.
+Proof.
+  apply (C16_composed_with_C10 hash_toy enc8 U_toy fh FE FL FB fh_eqb
+           hash_toy_len hash_toy_wfb hash_toy_inj_U enc8_len enc8_inj).
+  intros a b. unfold fh_eqb. destruct (fh_eq_dec a b); split; intros; auto; try discriminate; congruence.
+Qed.
+
+(* a concrete run inside that instance: one block with one transaction that sets a 39-byte key; the premises of
+   [reach] hold for it (so the universally quantified theorems have inhabited premises) *)
+Example C16_reach_nonvacuous :
+  let k := [0; 0; 0; 0; 1; 0; 0] ++ repeat 7 32 in
+  let t := {| tx_id := 1; tx_module := 1; tx_module_ok := true; tx_before := ([], false);
+              tx_command := Some ([ASet k [5]; AGet k], false); tx_after := ([], false) |} in
+  exists a r, reach hash_toy enc8 (@T bytes) fh fh_eqb (batch_update tkbits) (Tree.hash FE FL FB) E U_toy FE a 1 /\
+              lookup (a_state a) k = Some [5] /\ a_tree_state a = Some (1, r) /\ r <> FE.
+Proof.
+  intros k t.
+  set (f := fresh (@T bytes) fh E).
+  destruct (exec_txs (a_state f) 1 [] no_snaps [t]) as [c v] eqn:Ex.
+  destruct (commit hash_toy enc8 fh_eqb (batch_update tkbits) (Tree.hash FE FL FB) f c 1 (Tree.hash FE FL FB (a_tree f)) None false) as [a r| | |] eqn:Ec;
+    try (vm_compute in Ex; inversion Ex; subst; vm_compute in Ec; discriminate).
+  exists a, r. split.
+  - apply (rc_block hash_toy enc8 (@T bytes) fh fh_eqb (batch_update tkbits) (Tree.hash FE FL FB) E U_toy FE f 0 [t] c v None a r).
+    + apply rc_fresh.
+    + repeat constructor; simpl; auto; try (exists ([0; 0; 0; 1; 0; 0] ++ repeat 7 32); split; [reflexivity | simpl; lia]);
+        try (unfold U_toy; split; [repeat constructor; lia | reflexivity]); repeat constructor; lia.
+    + exact Ex.
+    + reflexivity.
+    + exact Ec.
+  - vm_compute in Ex. inversion Ex; subst. vm_compute in Ec. inversion Ec; subst. vm_compute. repeat split; auto. discriminate.
 Qed.
